@@ -48,14 +48,30 @@ static void observe(const char *op, int n, const unsigned char *data, size_t dle
 		ev_bool("eq_same", json_object_equal(node, same) && json_object_equal(same, node));
 		json_object_put(same);
 		int eqd = 0;
-		if (len > 0)
 		{
-			char *d = malloc((size_t)len);
+			/* values that differ from the node's: last byte changed; the node's bytes followed by a NUL-led suffix; a proper
+			 * prefix; a prefix cut at an embedded NUL; one byte more - none of them is equal to it */
+			char *d = malloc((size_t)len + 8);
 			memcpy(d, s, (size_t)len);
-			d[len - 1] ^= 1;
-			json_object *diff = json_object_new_string_len(d, len);
-			eqd = json_object_equal(node, diff) || json_object_equal(diff, node);
-			json_object_put(diff);
+			memcpy(d + len, "\0suffix", 7);
+			json_object *diffs[5];
+			int nd = 0;
+			diffs[nd++] = json_object_new_string_len(d, len + 7);
+			diffs[nd++] = json_object_new_string_len(d, len + 1);
+			if (len > 0)
+			{
+				diffs[nd++] = json_object_new_string_len(d, len - 1);
+				const char *z = memchr(s, 0, (size_t)len);
+				if (z)
+					diffs[nd++] = json_object_new_string_len(d, (int)(z - s));
+				d[len - 1] ^= 1;
+				diffs[nd++] = json_object_new_string_len(d, len);
+			}
+			for (int j = 0; j < nd; j++)
+			{
+				eqd |= json_object_equal(node, diffs[j]) || json_object_equal(diffs[j], node);
+				json_object_put(diffs[j]);
+			}
 			free(d);
 		}
 		ev_bool("eq_diff", eqd);
